@@ -51,6 +51,10 @@ def as_is_ids(node, value, out=None, depth=0, side="outer"):  # noqa: C901
         return out
     if isinstance(node, spec.WrapT):
         return as_is_ids(node.child, value, out, depth + 1, side)
+    if isinstance(node, spec.EnumT):
+        for m in node.cls:      # "Dumper returns value of the member": a mutable member value ([1, 2]) is the enum's own object, not built by adaptix
+            out.update(mutable_ids(m.value))
+        return out
     if isinstance(node, spec.UnionT):
         for c in node.children:       # whichever case took it: be permissive for unions containing an as-is case
             if c.kind in AS_IS_KINDS:
